@@ -722,4 +722,81 @@ class RandomHistories(_Base):
         return run_case(case, lenient=True)
 
 
-BOUNDED = [OneTaskHistories, TwoTaskInterleavings, RemovalDuringTick, RandomHistories]
+class CooperatorStop(Bounded):
+    """Cooperator.stop(): the stop reason reaches every task that is being scheduled"""
+    prop = "C11"
+    title = ("Cooperator.stop() with N runnable tasks (cooperate and coiterate mixed), after 0-2 scheduler ticks: every "
+             "whenDone / coiterate Deferred of every task that was being scheduled fires exactly once with "
+             "Failure(SchedulerStopped); nothing is advanced afterwards")
+    scope = ("N = 1..5 tasks (thorough 1..7) over endless iterators, each created by cooperate (with 0-2 whenDone observers) "
+             "or coiterate, every assignment of kinds for N <= 4 (one rotating assignment above), 0, 1 or 2 ticks of k = 1 or 3 "
+             "work units before the stop, then stop(), then one more tick if anything is still scheduled.  "
+             "case = (kinds, observers, ticks, k)")
+    functions = ["Cooperator.stop", "CooperativeTask._completeWith", "Cooperator._removeTask"]
+
+    def cases(self, tier, rng):
+        top = 5 if tier == "quick" else 7
+        for n in range(1, top + 1):
+            kindsets = itertools.product("ci", repeat=n) if n <= 4 else [tuple("ci"[(j + n) % 2] for j in range(n))]
+            for kinds in kindsets:
+                for obs in (0, 1, 2):
+                    for ticks in (0, 1, 2):
+                        for k in (1, 3):
+                            yield (tuple(kinds), obs, ticks, k)
+
+    def check(self, case):
+        kinds, nobs, ticks, k = case
+        sched = _Sched()
+        units = [0]
+
+        def tpf():
+            units[0] = 0
+            return lambda: units[0] >= k
+        coop = task.Cooperator(terminationPredicateFactory=tpf, scheduler=sched)
+        advanced = [0] * len(kinds)
+        results = []
+
+        def endless(j):
+            while True:
+                advanced[j] += 1
+                units[0] += 1
+                yield None
+        for j, kind in enumerate(kinds):
+            got = []
+            results.append(got)
+            if kind == "c":
+                h = coop.cooperate(endless(j))
+                for _ in range(max(1, nobs)):
+                    h.whenDone().addBoth(got.append)
+            else:
+                coop.coiterate(endless(j)).addBoth(got.append)
+
+        def tick():
+            if sched.pending:
+                c = sched.pending.pop(0)
+                c.called = True
+                c.f()
+        for _ in range(ticks):
+            tick()
+        try:
+            coop.stop()
+        except Exception as e:  # noqa
+            return "Cooperator.stop() raised %r" % (e,)
+        before = list(advanced)
+        tick()
+        if advanced != before:
+            return "tasks were advanced after Cooperator.stop(): %r -> %r" % (before, advanced)
+        for j, got in enumerate(results):
+            want = max(1, nobs) if kinds[j] == "c" else 1
+            bad = [r for r in got if not (isinstance(r, Failure) and r.check(task.SchedulerStopped))]
+            for r in got:
+                if isinstance(r, Failure):
+                    r.trap(task.SchedulerStopped) if r.check(task.SchedulerStopped) else None
+            if len(got) != want or bad:
+                return ("after Cooperator.stop() the completion Deferred(s) of task %d of %d (%s) fired %d time(s) %r, expected %d x "
+                        "Failure(SchedulerStopped)" % (j, len(kinds), "cooperate" if kinds[j] == "c" else "coiterate", len(got),
+                                                       [getattr(r, "type", r) for r in got], want))
+        return None
+
+
+BOUNDED = [OneTaskHistories, TwoTaskInterleavings, RemovalDuringTick, RandomHistories, CooperatorStop]
